@@ -18,15 +18,51 @@ ASSUMPTIONS = ['universe graphs are acyclic', 'filler cells have non-zero import
 
 def plan(tier):
     q = tier == 'quick'
-    return [('monitor', 260 if q else 4000, {}), ('model', 80 if q else 1500, {})]
+    return [('monitor', 260 if q else 4000, {}), ('model', 80 if q else 1500, {}), ('fillmodel', 120 if q else 2500, {})]
 
 
 def search_plan(tier, disagreements):
     return [('monitor', 1200 if tier == 'quick' else 8000, {'npts': 300})]
 
 
+def fillmodel_case(seed, rng, ctx):
+    """which cells pot_fill creates (order, provenance, material, density) vs the Lean model"""
+    d = U.build_universe_deck(rng, depth=rng.randint(1, 3), macro_p=0.1, tr_p=0.1, fill_tr_p=0.6, trcl_p=0.4, reuse_p=0.6)
+    args = random_options(rng)
+    text = D.render_deck(d, D.Layout(rng))
+    key = h((text, tuple(args)))
+    res, cap = C.convert_capture(text, args)
+    if not res.ok or cap.cells_after is None:
+        return None
+    cells = cap.cells_after
+    orig_ids = [c.id for c in d.cells]
+    if any(cells[i]['lat'] or cells[i]['fillid'] == 'array' for i in orig_ids if i in cells):
+        return None
+    items = []
+    for i in orig_ids:
+        c = cells[i]
+        items.append('%d:%d:%s:%s:%s' % (i, c['u'], '-' if c['fillid'] is None else c['fillid'], lean.hx(c['mat']),
+                                         lean.hx('' if c['rho'] is None else str(c['rho']))))
+    resp = ctx['drv'].ask('fillmodel ' + ' '.join(items))
+    new = sorted(k for k in cells if k not in orig_ids and cells[k]['u'] == 0 and not cells[k]['filled']
+                 and cells[k]['origin'])
+    code = ['%d;%s;%s;%s' % (cells[k]['origin'][0][0], ','.join('%d-%d' % ab for ab in cells[k]['origin']),
+                             lean.hx(cells[k]['mat']), lean.hx('' if cells[k]['rho'] is None else str(cells[k]['rho'])))
+            for k in new]
+    fails = []
+    model = resp.split()[1:] if resp.startswith('ok') and resp != 'ok none' else resp
+    if model != code:
+        fails.append(fail('disagreement', 'pot_fill: code creates %r / model %r' % (code, model), {'stream': 'fillmodel'},
+                          {'deck': text, 'args': args}))
+    depth = max([len(cells[k]['origin']) for k in new] or [0])
+    return dict(hashes=[key], nontrivial_hashes=[key] if new else [], dist={'fillmodel:leaves': len(new), 'fillmodel:depth-%d' % depth: 1},
+                sample={'leaves': code[:6]}, failures=fails)
+
+
 def run_case(stream, seed, ctx, params):
     rng = random.Random(seed)
+    if stream == 'fillmodel':
+        return fillmodel_case(seed, rng, ctx)
     d = U.build_universe_deck(rng, depth=rng.randint(1, 3), macro_p=0.15, tr_p=0.1,
                               fill_tr_p=0.7, trcl_p=0.35, reuse_p=0.5)
     args = random_options(rng)
